@@ -194,6 +194,8 @@ def dir_hash(paths):
             if ".build" in dirs:
                 dirs.remove(".build")
             for f in sorted(files):
+                if f.startswith(("Proofs", "Properties")):
+                    continue  # proofs do not influence what the case evaluator computes
                 if f.endswith((".v", ".go", ".py", ".mod", ".sum", ".json")):
                     p = os.path.join(root, f)
                     h.update(p.encode())
